@@ -122,7 +122,8 @@ func (f *upstreamLimiter) Load(name string) (flowcontrol.FlowControl, bool) {
 			reason = "clientSets is not ready"
 		default:
 			fc := fcw.FlowControl()
-			if fc != nil {
+			// the remote wrapper is published before its first limit has been applied
+			if fc != nil && len(fc.Config().Name) > 0 {
 				return fc, true
 			}
 			reason = "remote flowcontrol is not synced"
